@@ -17,7 +17,7 @@ for pid in sorted(m.PROPS):
         evidence_file='/verif/evidence/%s.json' % pid,
         replay_cmd_template='./check --replay {path}',
         engine='verus-contracts',
-        level_claimed=dict(category=c.get('level', 'proof'), text=c.get('level_text') or c.get('explanation', ''), design_ref=c.get('design_ref', 'DESIGN.md section 7 / %s' % pid)),
+        level_claimed=dict(category=c.get('level', 'proof'), text=c.get('level_text') or c.get('explanation', ''), design_ref=c.get('design_ref', 'DESIGN.md Part I (I.3 trusted base, I.4 per-property table); plan: section 7 / %s' % pid)),
         level_note=c.get('level_note') or ('Trusted base: Verus/Z3; assumed std contracts (T-std), A-float, A-clone; functions listed as out_of_reach in the evidence are not verified. '
                                            + ' '.join(c.get('assumptions', []))),
         technique=c.get('technique', 'contract-based deductive verification (Verus) of the functions extracted from /repo on every run'),
